@@ -36,8 +36,8 @@ ASSUMPTIONS = [
     'only termination within 1 s, no repetition and no member outside the set are claimed; an exception raised for such a '
     'set is recorded as an outcome, not reported',
     'a hang is reported only when the same call exceeds the 1 s limit three times in a row (normal cost about 60 microseconds)',
-    'the class carries a second reflexive 1C:1C association (R3, phrases up/down, instances chained in creation order) as a '
-    'distractor; only R2 is sorted',
+    'the class carries a second reflexive 1C:1C association (R3, phrases up/down, instances chained in creation order, defined '
+    'before R2) and a third one (R4, left/right, reverse creation order, defined after R2) as distractors; only R2 is sorted',
     'one chain, one ring and two chains of 1500 (thorough 4000) members -- longer than the interpreter\'s default recursion limit -- '
     'are sorted across both phrases from three set orders',
     're-link family: the whole set is sorted, the same instances are re-linked into another arrangement, and the RESULT object '
@@ -49,6 +49,8 @@ ASSUMPTIONS = [
 REL = 2
 OTHER_REL = 3
 OTHER_PHRASES = ('up', 'down')
+THIRD_REL = 4
+THIRD_PHRASES = ('left', 'right')
 LIMIT_S = 1.0
 # isomorphic phrase palettes (phrase across which a member reaches its predecessor, ... its successor)
 PALETTES = [('prev', 'next'), ('succeeds', 'precedes'), ('b', 'a'), ('is after', 'is before'),
@@ -189,18 +191,23 @@ def build(succ, mode, pal):
     w.succ = succ
     w.pal = (p_pred, p_succ)
     m = xtuml.MetaModel(xtuml.IntegerGenerator())
-    m.define_class('A', [('Id', 'unique_id'), ('Next_Id', 'unique_id'), ('Other_Id', 'unique_id')])
+    m.define_class('A', [('Id', 'unique_id'), ('Next_Id', 'unique_id'), ('Other_Id', 'unique_id'), ('Third_Id', 'unique_id')])
     # a second reflexive association of the same class (defined first, other phrases), chaining the instances in
     # creation order: sorting across REL must not be disturbed by it
     m.define_association(OTHER_REL, 'A', ['Other_Id'], False, True, OTHER_PHRASES[0], 'A', ['Id'], False, True,
                          OTHER_PHRASES[1]).formalize()
     ass = m.define_association(REL, 'A', ['Next_Id'], False, True, p_pred, 'A', ['Id'], False, True, p_succ)
     ass.formalize()
+    # ... and a third one defined after it, chaining the instances in reverse creation order (round 7: the sorted
+    # association is neither the first nor the last reflexive association of its class)
+    m.define_association(THIRD_REL, 'A', ['Third_Id'], False, True, THIRD_PHRASES[0], 'A', ['Id'], False, True,
+                         THIRD_PHRASES[1]).formalize()
     m.define_unique_identifier('A', 1, 'Id')
     w.m = m
     w.insts = [m.new('A') for _ in succ]
     for x in range(len(succ) - 1):
         xtuml.relate(w.insts[x], w.insts[x + 1], OTHER_REL, OTHER_PHRASES[1])
+        xtuml.relate(w.insts[x + 1], w.insts[x], THIRD_REL, THIRD_PHRASES[1])
     for x, y, from_x in links_of(succ, mode):
         if from_x:
             xtuml.relate(w.insts[x], w.insts[y], REL, p_succ)
@@ -596,14 +603,18 @@ def unit_test(case):
     n = case['n']
     lines = ['import xtuml',
              'm = xtuml.MetaModel(xtuml.IntegerGenerator())',
-             "m.define_class('A', [('Id', 'unique_id'), ('Next_Id', 'unique_id'), ('Other_Id', 'unique_id')])",
+             "m.define_class('A', [('Id', 'unique_id'), ('Next_Id', 'unique_id'), ('Other_Id', 'unique_id'), ('Third_Id', 'unique_id')])",
              "m.define_association(%d, 'A', ['Other_Id'], False, True, %r, 'A', ['Id'], False, True, %r).formalize()" %
              (OTHER_REL, OTHER_PHRASES[0], OTHER_PHRASES[1]),
              "m.define_association(%d, 'A', ['Next_Id'], False, True, %r, 'A', ['Id'], False, True, %r).formalize()" %
              (REL, p_pred, p_succ),
+             "m.define_association(%d, 'A', ['Third_Id'], False, True, %r, 'A', ['Id'], False, True, %r).formalize()" %
+             (THIRD_REL, THIRD_PHRASES[0], THIRD_PHRASES[1]),
              "a = [m.new('A') for _ in range(%d)]" % n,
              'for i in range(%d): xtuml.relate(a[i], a[i + 1], %d, %r)   # the other association: creation order' %
-             (max(0, n - 1), OTHER_REL, OTHER_PHRASES[1])]
+             (max(0, n - 1), OTHER_REL, OTHER_PHRASES[1]),
+             'for i in range(%d): xtuml.relate(a[i + 1], a[i], %d, %r)   # the third association: reverse creation order' %
+             (max(0, n - 1), THIRD_REL, THIRD_PHRASES[1])]
     for x, y, from_x in links_of(case['succ'], case['mode']):
         if from_x:
             lines.append('xtuml.relate(a[%d], a[%d], %d, %r)' % (x, y, REL, p_succ))
